@@ -90,6 +90,9 @@ func judgeC10(hst Hist) *h.Verdict {
 			}
 		}
 		for i := range live {
+			if len(live) > 60 {
+				break // (classification only; quadratic)
+			}
 			for j := range live {
 				if i != j && (live[i].supi != live[j].supi || live[i].name != live[j].name) {
 					a, b := live[i].supi+live[i].name, live[j].supi+live[j].name
@@ -261,3 +264,7 @@ func genAmbiguity(t *rapid.T) Hist {
 }
 
 func TestC10Ambiguity(t *testing.T) { h.Run(t, "C10", "ambiguity", genAmbiguity, judgeC10) }
+
+func TestC10Volume(t *testing.T) {
+	h.Run(t, "C10", "volume", func(t *rapid.T) Hist { return genVolumeHist(t, true) }, volumeOf(judgeC10, true))
+}
